@@ -120,15 +120,21 @@ def parse_number(string):
         return num
     return error.VALUE
 
+# The largest whole number the operators and ^ compute (about 39 000 digits): what is done with a
+# whole number afterwards (its digits, a quotient, a conversion to another base) costs time that
+# grows with the square of its length, and 2^1000000 is a formula of nine characters.
+MAX_WHOLE_BITS = 2**17
+
+
 def power(number, exponent):
     """
-    number ** exponent. Integers stay exact, as whole-number literals of any length do (2^1024
-    is the number its 309 digits spell) - up to a million bits: beyond that the answer is #NUM!,
-    Python would go on multiplying for ever (9^999999999).
+    number ** exponent. Integers stay exact, as whole-number literals do (2^1024 is the number
+    its 309 digits spell) - up to MAX_WHOLE_BITS: beyond that the answer is #NUM!, Python would go
+    on multiplying for ever (9^999999999).
     """
     if (isinstance(number, integer_types) and isinstance(exponent, integer_types)
             and exponent > 0 and abs(number) > 1
-            and exponent * (abs(number).bit_length() - 1) >= 2**20):
+            and exponent * (abs(number).bit_length() - 1) >= MAX_WHOLE_BITS):
         return error.NUM
     try:
         return number ** exponent
